@@ -47,6 +47,16 @@ func c20Gen(rng *verifsim.RNG, idx int, tier string) *Plan {
 	}
 	if rng.Bool(0.5) {
 		n.Config.Debug = &DebugSpec{Address: "127.0.0.1:9430", Prometheus: rng.Bool(0.5)}
+		if rng.Bool(0.3) {
+			// its address is busy for a while (or for ever: 40 attempts, then the
+			// task fails, and everybody with it)
+			k := rng.Range(1, 4)
+			if rng.Bool(0.05) {
+				k = 41
+				horizon = 125 * time.Second
+			}
+			p.Faults = append(p.Faults, Fault{Seam: "http.listen", Count: k, Err: "EADDRINUSE"})
+		}
 	}
 	p.Class = "real-tasks"
 
